@@ -34,6 +34,11 @@
        of its properties, so end - start and size may differ);
      - Python slices with negative bounds (pyslice: an index below zero counts from the end of the buffer).
    znav_of / znav_name / znav_index / znav_raw are unpacker.nav, NDNav.name, NDNav.index, NDNav.raw over that walk.
+     - the sign test of the DependsOnArraySchema case ( if maxItems < 0: raise ValueError , fix of finding K-negative-counter):
+       the walk takes a flag negref - is a negative item count refused - and raises ValueError at that table, before the items
+       are walked, when it is set.  zwalk / znav_of / znav_index / znav_path are the walk with the flag as the source has it NOW
+       (Gen/LayoutParams.odo_negative_refused); zwalk_with false is the walk before the fix, about which the _old theorems of
+       Props/C06e.v speak.
    No proofs in this file. *)
 From Coq Require Import ZArith NArith List Bool Arith.
 Import ListNotations.
@@ -161,6 +166,7 @@ Definition zof_res_nat (x : res nat) : res Z := match x with Ok n => Ok (Z.of_na
 
 Section ZWalk.
   Variable B : Type.
+  Variable negref : bool.               (* is a negative item count refused (Gen/LayoutParams.odo_negative_refused; [false]: the walk before that fix) *)
   Variable zdec : list B -> res Z.      (* int(unpacker.value(counter schema, bytes)), or the exception *)
   Variable r : list B.                  (* the record instance *)
 
@@ -178,7 +184,7 @@ Section ZWalk.
     | CsAttrMaxItems => Ok 0
     end.
 
-  Fixpoint zwalk (s : js) (st : Z) (an : zanchors) : res (zloc * zanchors) :=
+  Fixpoint zwalk_with (s : js) (st : Z) (an : zanchors) : res (zloc * zanchors) :=
     match s with
     | JAtom a sz =>
         match dispatch CAtomic with
@@ -195,7 +201,7 @@ Section ZWalk.
             match zof_res_nat (arr_count n) with
             | Err e => Err e
             | Ok cnt =>
-                match zwalk its (evalZ (zenv_arr st 0 cnt) arr_item_start) an with
+                match zwalk_with its (evalZ (zenv_arr st 0 cnt) arr_item_start) an with
                 | Err e => Err e
                 | Ok (sub, an1) =>
                     let l := zarr_loc arr_start arr_end arr_item_size arr_item_count st sub cnt its in Ok (l, zpost_reg a l an1)
@@ -209,7 +215,9 @@ Section ZWalk.
             match zodo_count c an with
             | Err e => Err e
             | Ok cnt =>
-                match zwalk its (evalZ (zenv_arr st 0 cnt) odo_item_start) an with
+                (* if maxItems < 0: raise ValueError(...)  - before the items are walked *)
+                if negref && (cnt <? 0) then Err ValueError else
+                match zwalk_with its (evalZ (zenv_arr st 0 cnt) odo_item_start) an with
                 | Err e => Err e
                 | Ok (sub, an1) =>
                     let l := zarr_loc odo_start odo_end odo_item_size odo_item_count st sub cnt its in Ok (l, zpost_reg a l an1)
@@ -219,7 +227,7 @@ Section ZWalk.
             match zof_res_nat odo_as_arr_count with
             | Err e => Err e
             | Ok cnt =>
-                match zwalk its (evalZ (zenv_arr st 0 cnt) arr_item_start) an with
+                match zwalk_with its (evalZ (zenv_arr st 0 cnt) arr_item_start) an with
                 | Err e => Err e
                 | Ok (sub, an1) =>
                     let l := zarr_loc arr_start arr_end arr_item_size arr_item_count st sub cnt its in Ok (l, zpost_reg a l an1)
@@ -230,7 +238,7 @@ Section ZWalk.
     | JObj a ps =>
         match dispatch CObject with
         | Some CObject =>
-            match zwalk_props ps (evalZ (zenv_start st) obj_first_offset) an with
+            match zwalk_props_with ps (evalZ (zenv_start st) obj_first_offset) an with
             | Err e => Err e
             | Ok (pls, off, an1) =>
                 let v := zenv_obj st off in
@@ -246,7 +254,7 @@ Section ZWalk.
             match alts, agg_empty one_agg with
             | ANil, Err e => Err e
             | _, _ =>
-                match zwalk_alts alts (evalZ (zenv_start st) one_alt_start) an with
+                match zwalk_alts_with alts (evalZ (zenv_start st) one_alt_start) an with
                 | Err e => Err e
                 | Ok (als, an1) =>
                     let v := zenv_one st (zagg one_agg (zsizes_alts als)) in
@@ -266,27 +274,27 @@ Section ZWalk.
         | _ => Err DesignError
         end
     end
-  with zwalk_props (ps : props) (off : Z) (an : zanchors) : res (zprops * Z * zanchors) :=
+  with zwalk_props_with (ps : props) (off : Z) (an : zanchors) : res (zprops * Z * zanchors) :=
     match ps with
     | PNil => Ok (ZPNil, off, an)
     | PCons k p rest =>
-        match zwalk p (evalZ (zenv_off off) obj_child_start) an with
+        match zwalk_with p (evalZ (zenv_off off) obj_child_start) an with
         | Err e => Err e
         | Ok (pl, an1) =>
-            match zwalk_props rest (evalZ (zenv_step off (zsize pl)) obj_step) (zloop_reg (js_anchor p) pl an1) with
+            match zwalk_props_with rest (evalZ (zenv_step off (zsize pl)) obj_step) (zloop_reg (js_anchor p) pl an1) with
             | Err e => Err e
             | Ok (rl, off', an2) => Ok (ZPCons k pl rl, off', an2)
             end
         end
     end
-  with zwalk_alts (alts : jalts) (st : Z) (an : zanchors) : res (zalts * zanchors) :=
+  with zwalk_alts_with (alts : jalts) (st : Z) (an : zanchors) : res (zalts * zanchors) :=
     match alts with
     | ANil => Ok (ZANil, an)
     | ACons s rest =>
-        match zwalk s st an with
+        match zwalk_with s st an with
         | Err e => Err e
         | Ok (l, an1) =>
-            match zwalk_alts rest st an1 with
+            match zwalk_alts_with rest st an1 with
             | Err e => Err e
             | Ok (ls, an2) => Ok (ZACons l ls, an2)
             end
@@ -296,11 +304,11 @@ Section ZWalk.
   (* ---- NDNav ---- *)
   Record znav := mkznav { zn_loc : zloc; zn_an : zanchors }.
 
-  Definition zfrom_instance (s : js) (start : Z) : res (zloc * zanchors) :=
-    zwalk s (evalZ (zenv_start start) from_instance_start) [].
+  Definition zfrom_instance_with (s : js) (start : Z) : res (zloc * zanchors) :=
+    zwalk_with s (evalZ (zenv_start start) from_instance_start) [].
 
-  Definition znav_of (s : js) : res znav :=
-    match zfrom_instance s (Z.of_nat from_instance_default) with Ok (l, an) => Ok (mkznav l an) | Err e => Err e end.
+  Definition znav_of_with (s : js) : res znav :=
+    match zfrom_instance_with s (Z.of_nat from_instance_default) with Ok (l, an) => Ok (mkznav l an) | Err e => Err e end.
 
   Fixpoint zfind_prop (k : key) (ps : zprops) : option zloc :=
     match ps with
@@ -323,24 +331,24 @@ Section ZWalk.
     end.
 
   (* NDNav.index: the comparisons are on Python ints: item_count may be negative, and then every index is refused *)
-  Definition znav_index (v : znav) (i : Z) : res znav :=
+  Definition znav_index_with (v : znav) (i : Z) : res znav :=
     match zn_loc v with
     | ZArr st _ _ isz cnt _ sch =>
         if refused_lowZ index_refuse_low i || refusedZ index_refuse i cnt then Err IndexError
-        else match zfrom_instance sch (evalZ (zenv_index st isz cnt i) index_start) with
+        else match zfrom_instance_with sch (evalZ (zenv_index st isz cnt i) index_start) with
              | Ok (l, an) => Ok (mkznav l an)
              | Err e => Err e
              end
     | _ => Err TypeError
     end.
 
-  Definition znav_step (v : znav) (s : step) : res znav :=
-    match s with PName k => znav_name v (KName k) | PIndex i => znav_index v (Z.of_nat i) end.
+  Definition znav_step_with (v : znav) (s : step) : res znav :=
+    match s with PName k => znav_name v (KName k) | PIndex i => znav_index_with v (Z.of_nat i) end.
 
-  Fixpoint znav_path (v : znav) (p : list step) : res znav :=
+  Fixpoint znav_path_with (v : znav) (p : list step) : res znav :=
     match p with
     | [] => Ok v
-    | s :: p' => match znav_step v s with Ok v' => znav_path v' p' | Err e => Err e end
+    | s :: p' => match znav_step_with v s with Ok v' => znav_path_with v' p' | Err e => Err e end
     end.
 
   (* NDNav.raw: self.instance[<raw_lo> : <raw_hi>] *)
@@ -354,13 +362,23 @@ Section ZWalk.
 End ZWalk.
 
 Arguments zodo_count {B}.
-Arguments zwalk {B}.
-Arguments zwalk_props {B}.
-Arguments zwalk_alts {B}.
-Arguments zfrom_instance {B}.
-Arguments znav_of {B}.
-Arguments znav_index {B}.
-Arguments znav_step {B}.
-Arguments znav_path {B}.
+Arguments zwalk_with {B}.
+Arguments zwalk_props_with {B}.
+Arguments zwalk_alts_with {B}.
+Arguments zfrom_instance_with {B}.
+Arguments znav_of_with {B}.
+Arguments znav_index_with {B}.
+Arguments znav_step_with {B}.
+Arguments znav_path_with {B}.
 Arguments znav_raw {B}.
 Arguments znav_value_bytes {B}.
+
+(* ---- the walk as the source is NOW: the sign test on the item count as harness/t1_layout.py found it (or did not) *)
+Definition zwalk {B} := @zwalk_with B odo_negative_refused.
+Definition zwalk_props {B} := @zwalk_props_with B odo_negative_refused.
+Definition zwalk_alts {B} := @zwalk_alts_with B odo_negative_refused.
+Definition zfrom_instance {B} := @zfrom_instance_with B odo_negative_refused.
+Definition znav_of {B} := @znav_of_with B odo_negative_refused.
+Definition znav_index {B} := @znav_index_with B odo_negative_refused.
+Definition znav_step {B} := @znav_step_with B odo_negative_refused.
+Definition znav_path {B} := @znav_path_with B odo_negative_refused.
